@@ -104,9 +104,9 @@ func zvC14Bits(fam int, words ...uint16) string {
 }
 
 var (
-	zvC14Base4 = zvC14Bits(4, 10, 1, 1, 1)                                      // 10.1.1.1
-	zvC14Base6 = zvC14Bits(6, 0x2001, 0x0db8, 1, 1, 0x8000, 0, 0, 1)            // 2001:db8:1:1:8000::1
-	zvC14Oth4  = zvC14Bits(4, 172, 16, 0, 0)                                    // 172.16.0.0
+	zvC14Base4 = zvC14Bits(4, 10, 1, 1, 1)                                     // 10.1.1.1
+	zvC14Base6 = zvC14Bits(6, 0x2001, 0x0db8, 1, 1, 0x8000, 0, 0, 1)           // 2001:db8:1:1:8000::1
+	zvC14Oth4  = zvC14Bits(4, 172, 16, 0, 0)                                   // 172.16.0.0
 	zvC14Oth6  = zvC14Bits(6, 0x2a00, 0x1450, 0x4001, 0x0800, 0, 0, 0, 0x200e) // 2a00:1450:4001:800::200e
 )
 
@@ -193,11 +193,18 @@ type zvC14Term struct {
 
 var zvC14NHs = []bnet.IP{bnet.IPv4FromOctets(198, 51, 100, 1), bnet.IPv6(0x20010db8ffff0000, 1)}
 
-func zvC14IPStr(ip *bnet.IP) string {
+type zvC14IPv struct {
+	Nil bool
+	V4  bool
+	Hi  uint64
+	Lo  uint64
+}
+
+func zvC14IPOf(ip *bnet.IP) zvC14IPv {
 	if ip == nil {
-		return "<nil>"
+		return zvC14IPv{Nil: true}
 	}
-	return fmt.Sprintf("v4=%v %x:%x", ip.IsIPv4(), ip.Higher(), ip.Lower())
+	return zvC14IPv{V4: ip.IsIPv4(), Hi: ip.Higher(), Lo: ip.Lower()}
 }
 
 // ---- spec -> real objects ------------------------------------------------------
@@ -286,8 +293,8 @@ func zvC14Path(i int) *route.Path {
 	case 1: // BGP path with communities, AS path starting with a set
 		asp := types.ASPath{{Type: types.ASSet, ASNs: []uint32{1, 2}}, {Type: types.ASSequence, ASNs: []uint32{3}}}
 		return &route.Path{Type: route.BGPPathType, BGPPath: &route.BGPPath{
-			BGPPathA:         &route.BGPPathA{NextHop: bnet.IPv4FromOctets(192, 0, 2, 2).Ptr(), Source: bnet.IPv4FromOctets(192, 0, 2, 2).Ptr(), LocalPref: 150, MED: 10, Origin: 1},
-			ASPath:           &asp, ASPathLen: 2,
+			BGPPathA: &route.BGPPathA{NextHop: bnet.IPv4FromOctets(192, 0, 2, 2).Ptr(), Source: bnet.IPv4FromOctets(192, 0, 2, 2).Ptr(), LocalPref: 150, MED: 10, Origin: 1},
+			ASPath:   &asp, ASPathLen: 2,
 			Communities:      &types.Communities{65000<<16 | 1, 65000<<16 | 2},
 			LargeCommunities: &types.LargeCommunities{{GlobalAdministrator: 65000, DataPart1: 1, DataPart2: 1}},
 			ClusterList:      &types.ClusterList{7},
@@ -304,38 +311,53 @@ func zvC14Path(i int) *route.Path {
 	default: // BGP path with other communities only
 		asp := types.ASPath{{Type: types.ASSequence, ASNs: []uint32{65010}}}
 		return &route.Path{Type: route.BGPPathType, BGPPath: &route.BGPPath{
-			BGPPathA:         &route.BGPPathA{NextHop: bnet.IPv4FromOctets(192, 0, 2, 3).Ptr(), Source: bnet.IPv4FromOctets(192, 0, 2, 3).Ptr(), LocalPref: 100},
-			ASPath:           &asp, ASPathLen: 1,
+			BGPPathA: &route.BGPPathA{NextHop: bnet.IPv4FromOctets(192, 0, 2, 3).Ptr(), Source: bnet.IPv4FromOctets(192, 0, 2, 3).Ptr(), LocalPref: 100},
+			ASPath:   &asp, ASPathLen: 1,
 			Communities:      &types.Communities{65000<<16 | 7},
 			LargeCommunities: &types.LargeCommunities{{GlobalAdministrator: 65000, DataPart1: 2, DataPart2: 2}}}}
 	}
 }
 
 // zvC14PM is the plain model of a path: what the reference rewrites and what is
-// compared. AS is the AS path flattened (adjacent sequences merged; a set is one item).
+// compared. AS is the AS path flattened (adjacent sequences merged; a set is a marker
+// item followed by its members).
 type zvC14PM struct {
 	Type      uint8
 	BGP       bool
-	NextHop   string
+	NextHop   zvC14IPv
 	LocalPref uint32
 	MED       uint32
-	AS        []string
+	AS        []uint64
 	ASLen     int
 	Coms      []uint32
 	LComs     [][3]uint32
-	Rest      string // attributes no action touches (must come through unchanged)
+	Rest      zvC14Rest // attributes no action touches (must come through unchanged)
 }
+
+type zvC14Rest struct {
+	NilPath, NoA, Aggr, EBGP, Atomic, Post bool
+	Hidden, Redist, Origin                 uint8
+	LTime, ID, OID, OTC, PathID            uint32
+	Src                                    zvC14IPv
+	NCluster, NUnknown                     int
+	Cluster                                [4]uint32
+}
+
+const (
+	zvC14SetMark   = uint64(1) << 63
+	zvC14SetMember = uint64(1) << 62
+)
 
 func zvC14Observe(p *route.Path) zvC14PM {
 	m := zvC14PM{}
 	if p == nil {
-		m.Rest = "<nil path>"
+		m.Rest.NilPath = true
 		return m
 	}
 	m.Type = p.Type
-	m.Rest = fmt.Sprintf("hidden=%d redist=%d ltime=%d", p.HiddenReason, p.RedistributedFrom, p.LTime)
+	m.Rest.Hidden, m.Rest.Redist, m.Rest.LTime = p.HiddenReason, p.RedistributedFrom, p.LTime
 	if p.StaticPath != nil {
-		m.NextHop = zvC14IPStr(p.StaticPath.NextHop)
+		m.NextHop = zvC14IPOf(p.StaticPath.NextHop)
 	}
 	b := p.BGPPath
 	if b == nil {
@@ -343,21 +365,25 @@ func zvC14Observe(p *route.Path) zvC14PM {
 	}
 	m.BGP = true
 	if a := b.BGPPathA; a != nil {
-		m.NextHop = zvC14IPStr(a.NextHop)
+		m.NextHop = zvC14IPOf(a.NextHop)
 		m.LocalPref = a.LocalPref
 		m.MED = a.MED
-		m.Rest += fmt.Sprintf(" src=%s id=%d oid=%d ebgp=%v atomic=%v origin=%d otc=%d aggr=%v", zvC14IPStr(a.Source), a.BGPIdentifier, a.OriginatorID, a.EBGP, a.AtomicAggregate, a.Origin, a.OnlyToCustomer, a.Aggregator != nil)
+		m.Rest.Src, m.Rest.ID, m.Rest.OID, m.Rest.EBGP, m.Rest.Atomic = zvC14IPOf(a.Source), a.BGPIdentifier, a.OriginatorID, a.EBGP, a.AtomicAggregate
+		m.Rest.Origin, m.Rest.OTC, m.Rest.Aggr = a.Origin, a.OnlyToCustomer, a.Aggregator != nil
 	} else {
-		m.Rest += " <no BGPPathA>"
+		m.Rest.NoA = true
 	}
 	if b.ASPath != nil {
 		for _, s := range *b.ASPath {
 			if s.Type == types.ASSequence {
 				for _, n := range s.ASNs {
-					m.AS = append(m.AS, fmt.Sprint(n))
+					m.AS = append(m.AS, uint64(n))
 				}
 			} else {
-				m.AS = append(m.AS, fmt.Sprint("set", s.ASNs))
+				m.AS = append(m.AS, zvC14SetMark|uint64(len(s.ASNs)))
+				for _, n := range s.ASNs {
+					m.AS = append(m.AS, zvC14SetMember|uint64(n))
+				}
 			}
 		}
 	}
@@ -371,9 +397,14 @@ func zvC14Observe(p *route.Path) zvC14PM {
 		}
 	}
 	if b.ClusterList != nil {
-		m.Rest += fmt.Sprint(" cl=", []uint32(*b.ClusterList))
+		m.Rest.NCluster = len(*b.ClusterList)
+		for i, c := range *b.ClusterList {
+			if i < len(m.Rest.Cluster) {
+				m.Rest.Cluster[i] = c
+			}
+		}
 	}
-	m.Rest += fmt.Sprintf(" pathid=%d post=%v unk=%d", b.PathIdentifier, b.BMPPostPolicy, len(b.UnknownAttributes))
+	m.Rest.PathID, m.Rest.Post, m.Rest.NUnknown = b.PathIdentifier, b.BMPPostPolicy, len(b.UnknownAttributes)
 	return m
 }
 
@@ -423,7 +454,7 @@ func zvC14PMDiff(a, b *zvC14PM) string {
 
 func (m zvC14PM) clone() zvC14PM {
 	c := m
-	c.AS = append([]string(nil), m.AS...)
+	c.AS = append([]uint64(nil), m.AS...)
 	return c
 }
 
@@ -549,9 +580,9 @@ func zvC14Ref(chain [][]*zvC14Term, q zvC14Pfx, in zvC14PM, plMode int, st *zvC1
 					}
 				case "prepend":
 					if pm.BGP && a.N > 0 {
-						as := make([]string, 0, len(pm.AS)+int(a.N))
+						as := make([]uint64, 0, len(pm.AS)+int(a.N))
 						for i := 0; i < int(a.N); i++ {
-							as = append(as, fmt.Sprint(a.V))
+							as = append(as, uint64(a.V))
 						}
 						pm.AS = append(as, pm.AS...)
 						pm.ASLen += int(a.N)
@@ -559,7 +590,7 @@ func zvC14Ref(chain [][]*zvC14Term, q zvC14Pfx, in zvC14PM, plMode int, st *zvC1
 					}
 				case "next_hop":
 					if pm.BGP || pm.Type == route.StaticPathType {
-						pm.NextHop = zvC14IPStr(&zvC14NHs[a.IP])
+						pm.NextHop = zvC14IPOf(&zvC14NHs[a.IP])
 						st.rewritten = true
 					}
 				}
@@ -619,24 +650,26 @@ type zvC14Input struct {
 	pm    zvC14PM // observation of path when it was built
 }
 
+// zvC14Family: "4"/"6" when every prefix in the chain's conditions has the probe's family,
+// "cross" when the chain holds a route filter / prefix list of the other family.
 func zvC14Family(chain [][]*zvC14Term, q zvC14Pfx) string {
-	fams := map[int]bool{}
 	for _, f := range chain {
 		for _, t := range f {
 			for _, c := range t.From {
 				for _, rf := range c.RFs {
-					fams[rf.Pat.Fam] = true
+					if rf.Pat.Fam != q.Fam {
+						return "cross"
+					}
 				}
 				for _, pl := range c.PLs {
 					for _, p := range pl.Pats {
-						fams[p.Fam] = true
+						if p.Fam != q.Fam {
+							return "cross"
+						}
 					}
 				}
 			}
 		}
-	}
-	if fams[10-q.Fam] && !fams[q.Fam] {
-		return "cross"
 	}
 	return fmt.Sprint(q.Fam)
 }
@@ -644,7 +677,7 @@ func zvC14Family(chain [][]*zvC14Term, q zvC14Pfx) string {
 // zvC14Eval runs the real chain on one input and compares with the reference.
 // extraSig adds layer-specific signature features (matcher kind).
 func zvC14Eval(r *vh.Run, layer string, spec [][]*zvC14Term, ambiguous bool, real Chain, in *zvC14Input, extraSig ...string) {
-	r.Eval(1)
+	zvC14Evals++
 	mk := func() zvC14Case {
 		return zvC14Case{Layer: layer, Chain: spec, Probe: in.q, Path: in.pi, Human: zvC14Human(spec, in.q, in.pi)}
 	}
@@ -686,11 +719,11 @@ func zvC14Eval(r *vh.Run, layer string, spec [][]*zvC14Term, ambiguous bool, rea
 		wr1, _, w1 := zvC14Ref(spec, in.q, in.pm, 1, &st1)
 		d1 := diff(wr1, &w1)
 		if wr1 != wantReject || zvC14PMDiff(&want, &w1) != "" {
-			r.Count("prefixlist_matcher_readings_differ", 1)
+			zvC14Count("prefixlist_matcher_readings_differ", 1)
 			if d == "" {
-				r.Count("prefixlist_matcher_ignored_by_impl", 1)
+				zvC14Count("prefixlist_matcher_ignored_by_impl", 1)
 			} else if d1 == "" {
-				r.Count("prefixlist_matcher_applied_by_impl", 1)
+				zvC14Count("prefixlist_matcher_applied_by_impl", 1)
 			}
 		}
 		if d1 == "" {
@@ -705,34 +738,60 @@ func zvC14Eval(r *vh.Run, layer string, spec [][]*zvC14Term, ambiguous bool, rea
 		r.Violation(sig("clause", "decision", "want", w, "family", zvC14Family(spec, in.q)), mk(),
 			"%s: Process says reject=%v, the documented semantics say reject=%v", zvC14Human(spec, in.q, in.pi), gotReject, wantReject)
 	} else if d != "" {
-		r.Violation(sig("clause", "rewritten_path", "field", d), mk(),
+		r.Violation(sig("clause", "rewritten_path", "field", d, "family", zvC14Family(spec, in.q)), mk(),
 			"%s: accepted path differs in %s: got %+v want %+v", zvC14Human(spec, in.q, in.pi), d, gm, want)
 	}
 	// coverage
+	ok := [5]uint32{0, want.LocalPref, want.MED, uint32(len(want.AS)), uint32(want.NextHop.Lo)}
+	if wantReject {
+		ok = [5]uint32{1}
+	} else if term {
+		ok[0] = 2
+	}
+	zvC14Outcomes[ok] = struct{}{}
 	switch {
 	case wantReject:
-		r.Count("ref_reject", 1)
+		zvC14Count("ref_reject", 1)
 	case term:
-		r.Count("ref_accept_terminated", 1)
+		zvC14Count("ref_accept_terminated", 1)
 	default:
-		r.Count("ref_default_accept", 1)
+		zvC14Count("ref_default_accept", 1)
 	}
 	if st.rewritten && !wantReject {
-		r.Count("ref_accept_rewritten", 1)
+		zvC14Count("ref_accept_rewritten", 1)
 	}
 	if st.anyOfLater {
-		r.Count("any_of_later_condition_matched", 1)
+		zvC14Count("any_of_later_condition_matched", 1)
 	}
 	if st.allOfPartial {
-		r.Count("all_of_some_part_failed", 1)
+		zvC14Count("all_of_some_part_failed", 1)
 	}
 	if st.v6Deep {
-		r.Count("v6_pattern_longer_than_64_matched", 1)
+		zvC14Count("v6_pattern_longer_than_64_matched", 1)
 	}
 	if in.q.Fam == 6 {
-		r.Count("probe_v6", 1)
+		zvC14Count("probe_v6", 1)
 	} else {
-		r.Count("probe_v4", 1)
+		zvC14Count("probe_v4", 1)
+	}
+}
+
+// counters are kept locally (no lock per evaluation) and flushed once
+var zvC14Cnt = map[string]int{}
+var zvC14Evals int
+var zvC14Outcomes = map[[5]uint32]struct{}{} // (decision, local pref, MED, AS path items, next hop) of the reference
+
+func zvC14Count(k string, n int) { zvC14Cnt[k] += n }
+
+func zvC14Flush(r *vh.Run) {
+	for k, n := range zvC14Cnt {
+		r.Count(k, n)
+	}
+	zvC14Cnt = map[string]int{}
+	r.Eval(zvC14Evals)
+	zvC14Evals = 0
+	for k := range zvC14Outcomes {
+		r.Outcome(fmt.Sprint(k))
 	}
 }
 
@@ -807,23 +866,23 @@ func zvC14ChainDiff(a, b [][]*zvC14Term) string {
 // zvC14EqualPair: chains c (spec a) and d (spec b) are separate object graphs. If either
 // direction of Equal says true, every input must give the same outcome on both.
 func zvC14EqualPair(r *vh.Run, a, b [][]*zvC14Term, c, d Chain, inputs []*zvC14Input) {
-	r.Eval(1)
+	zvC14Evals++
 	var eq1, eq2 bool
 	if p, what := vh.Try(func() { eq1 = c.Equal(d); eq2 = d.Equal(c) }); p {
 		r.Violation(vh.Sig("layer", "equal", "clause", "panic"), zvC14Case{Layer: "equal", Chain: a, ChainB: b, Probe: inputs[0].q}, "Chain.Equal panicked: %s", what)
 		return
 	}
 	if !eq1 && !eq2 {
-		r.Count("equal_false_pairs", 1)
+		zvC14Count("equal_false_pairs", 1)
 		return
 	}
-	r.Count("equal_true_pairs", 1)
+	zvC14Count("equal_true_pairs", 1)
 	differ := zvC14ChainDiff(a, b)
 	if differ != "" {
-		r.Count("equal_true_pairs_with_different_spec", 1)
+		zvC14Count("equal_true_pairs_with_different_spec", 1)
 	}
 	for _, in := range inputs {
-		r.Count("equal_inputs_compared", 1)
+		zvC14Count("equal_inputs_compared", 1)
 		var p1, p2 *route.Path
 		var r1, r2 bool
 		if p, _ := vh.Try(func() {
@@ -851,7 +910,7 @@ func zvC14EqualPair(r *vh.Run, a, b [][]*zvC14Term, c, d Chain, inputs []*zvC14I
 
 // ---- catalogue -------------------------------------------------------------------------------
 
-func zvC14Catalogue() (full []*zvC14Term, core []int) {
+func zvC14Catalogue() (full []*zvC14Term, core, wide []int) {
 	ex, orl, lng := zvC14M{K: "exact"}, zvC14M{K: "orlonger"}, zvC14M{K: "longer"}
 	rng := func(a, b uint8) zvC14M { return zvC14M{K: "range", Min: a, Max: b} }
 	rf := func(p zvC14Pfx, m zvC14M) zvC14Cond { return zvC14Cond{RFs: []zvC14RF{{p, m}}} }
@@ -863,90 +922,103 @@ func zvC14Catalogue() (full []*zvC14Term, core []int) {
 		c zvC14Cond
 	}
 	conds := []nc{
-		{"rf4/8orl", rf(zvC14P4(8), orl)},                                                                                 // 0
-		{"rf4/24ex", rf(zvC14P4(24), ex)},                                                                                 // 1
-		{"rf4/8lng", rf(zvC14P4(8), lng)},                                                                                 // 2
-		{"rf4/8r16-24", rf(zvC14P4(8), rng(16, 24))},                                                                      // 3
-		{"rf4/0orl", rf(zvC14P4(0), orl)},                                                                                 // 4
-		{"rf6/32orl", rf(zvC14P6(32), orl)},                                                                               // 5
-		{"rf6/48ex", rf(zvC14P6(48), ex)},                                                                                 // 6
-		{"rf6/32lng", rf(zvC14P6(32), lng)},                                                                               // 7
-		{"rf6/32r48-64", rf(zvC14P6(32), rng(48, 64))},                                                                    // 8
-		{"rf6/64r65-128", rf(zvC14P6(64), rng(65, 128))},                                                                  // 9
-		{"rf6/96orl", rf(zvC14P6(96), orl)},                                                                               // 10
-		{"rf6/0lng", rf(zvC14P6(0), lng)},                                                                                 // 11
-		{"rf{4/24ex,6/48ex}", zvC14Cond{RFs: []zvC14RF{{zvC14P4(24), ex}, {zvC14P6(48), ex}}}},                            // 12
-		{"pl{4/8,4/24}", zvC14Cond{PLs: []zvC14PL{{Pats: []zvC14Pfx{zvC14P4(8), zvC14P4(24)}}}}},                          // 13
-		{"pl{6/48}", zvC14Cond{PLs: []zvC14PL{{Pats: []zvC14Pfx{zvC14P6(48)}}}}},                                          // 14
+		{"rf4/8orl", rf(zvC14P4(8), orl)},                                                        // 0
+		{"rf4/24ex", rf(zvC14P4(24), ex)},                                                        // 1
+		{"rf4/8lng", rf(zvC14P4(8), lng)},                                                        // 2
+		{"rf4/8r16-24", rf(zvC14P4(8), rng(16, 24))},                                             // 3
+		{"rf4/0orl", rf(zvC14P4(0), orl)},                                                        // 4
+		{"rf6/32orl", rf(zvC14P6(32), orl)},                                                      // 5
+		{"rf6/48ex", rf(zvC14P6(48), ex)},                                                        // 6
+		{"rf6/32lng", rf(zvC14P6(32), lng)},                                                      // 7
+		{"rf6/32r48-64", rf(zvC14P6(32), rng(48, 64))},                                           // 8
+		{"rf6/64r65-128", rf(zvC14P6(64), rng(65, 128))},                                         // 9
+		{"rf6/96orl", rf(zvC14P6(96), orl)},                                                      // 10
+		{"rf6/0lng", rf(zvC14P6(0), lng)},                                                        // 11
+		{"rf{4/24ex,6/48ex}", zvC14Cond{RFs: []zvC14RF{{zvC14P4(24), ex}, {zvC14P6(48), ex}}}},   // 12
+		{"pl{4/8,4/24}", zvC14Cond{PLs: []zvC14PL{{Pats: []zvC14Pfx{zvC14P4(8), zvC14P4(24)}}}}}, // 13
+		{"pl{6/48}", zvC14Cond{PLs: []zvC14PL{{Pats: []zvC14Pfx{zvC14P6(48)}}}}},                 // 14
 		{"pl{4/32}+pl{6/128}", zvC14Cond{PLs: []zvC14PL{{Pats: []zvC14Pfx{zvC14P4(32)}}, {Pats: []zvC14Pfx{zvC14P6(128)}}}}}, // 15
-		{"com1", zvC14Cond{Coms: []uint32{com(1)}}},                                                                       // 16
-		{"com{9,2}", zvC14Cond{Coms: []uint32{com(9), com(2)}}},                                                           // 17
-		{"com7", zvC14Cond{Coms: []uint32{com(7)}}},                                                                       // 18
-		{"lcom(1,1)", zvC14Cond{LComs: [][3]uint32{{65000, 1, 1}}}},                                                       // 19
-		{"lcom(2,2)", zvC14Cond{LComs: [][3]uint32{{65000, 2, 2}}}},                                                       // 20
-		{"bgp", zvC14Cond{Protos: []uint8{bgp}}},                                                                          // 21
-		{"static", zvC14Cond{Protos: []uint8{static}}},                                                                    // 22
-		{"bgp|static", zvC14Cond{Protos: []uint8{static, bgp}}},                                                           // 23
-		{"rf4/8orl&bgp", zvC14Cond{RFs: []zvC14RF{{zvC14P4(8), orl}}, Protos: []uint8{bgp}}},                              // 24
-		{"rf6/32orl&com1", zvC14Cond{RFs: []zvC14RF{{zvC14P6(32), orl}}, Coms: []uint32{com(1)}}},                         // 25
+		{"com1", zvC14Cond{Coms: []uint32{com(1)}}},                                               // 16
+		{"com{9,2}", zvC14Cond{Coms: []uint32{com(9), com(2)}}},                                   // 17
+		{"com7", zvC14Cond{Coms: []uint32{com(7)}}},                                               // 18
+		{"lcom(1,1)", zvC14Cond{LComs: [][3]uint32{{65000, 1, 1}}}},                               // 19
+		{"lcom(2,2)", zvC14Cond{LComs: [][3]uint32{{65000, 2, 2}}}},                               // 20
+		{"bgp", zvC14Cond{Protos: []uint8{bgp}}},                                                  // 21
+		{"static", zvC14Cond{Protos: []uint8{static}}},                                            // 22
+		{"bgp|static", zvC14Cond{Protos: []uint8{static, bgp}}},                                   // 23
+		{"rf4/8orl&bgp", zvC14Cond{RFs: []zvC14RF{{zvC14P4(8), orl}}, Protos: []uint8{bgp}}},      // 24
+		{"rf6/32orl&com1", zvC14Cond{RFs: []zvC14RF{{zvC14P6(32), orl}}, Coms: []uint32{com(1)}}}, // 25
 		{"pl{4/24}&rf4/8orl&lcom(1,1)", zvC14Cond{PLs: []zvC14PL{{Pats: []zvC14Pfx{zvC14P4(24)}}}, RFs: []zvC14RF{{zvC14P4(8), orl}}, LComs: [][3]uint32{{65000, 1, 1}}}}, // 26
-		{"any", zvC14Cond{}},                                                                                              // 27
-		{"pl-orl{4/8}", zvC14Cond{PLs: []zvC14PL{{Pats: []zvC14Pfx{zvC14P4(8)}, M: &orl}}}},                               // 28 (undocumented reading, both accepted)
-		{"pl-ex{4/8,4/24}", zvC14Cond{PLs: []zvC14PL{{Pats: []zvC14Pfx{zvC14P4(8), zvC14P4(24)}, M: &ex}}}},                // 29
-		{"rf4/8r8-8", rf(zvC14P4(8), rng(8, 8))},                                                                          // 30
-		{"static&com1", zvC14Cond{Protos: []uint8{static}, Coms: []uint32{com(1)}}},                                       // 31
+		{"any", zvC14Cond{}}, // 27
+		{"pl-orl{4/8}", zvC14Cond{PLs: []zvC14PL{{Pats: []zvC14Pfx{zvC14P4(8)}, M: &orl}}}},                 // 28 (undocumented reading, both accepted)
+		{"pl-ex{4/8,4/24}", zvC14Cond{PLs: []zvC14PL{{Pats: []zvC14Pfx{zvC14P4(8), zvC14P4(24)}, M: &ex}}}}, // 29
+		{"rf4/8r8-8", rf(zvC14P4(8), rng(8, 8))},                                                            // 30
+		{"static&com1", zvC14Cond{Protos: []uint8{static}, Coms: []uint32{com(1)}}},                         // 31
 	}
 	accept, reject := zvC14Act{K: "accept"}, zvC14Act{K: "reject"}
 	lp := func(v uint32) zvC14Act { return zvC14Act{K: "local_pref", V: v} }
 	med := func(v uint32) zvC14Act { return zvC14Act{K: "med", V: v} }
 	pre := func(asn uint32, n uint16) zvC14Act { return zvC14Act{K: "prepend", V: asn, N: n} }
 	nh := func(i int) zvC14Act { return zvC14Act{K: "next_hop", IP: i} }
-	add := func(isCore bool, name string, from []zvC14Cond, then ...zvC14Act) {
-		if isCore {
+	// level 2: core (3-term sequences in the quick tier), 1: wide (3-term sequences in the
+	// thorough tier), 0: only in the 1- and 2-term sequences and in the equal layer
+	add := func(level int, name string, from []zvC14Cond, then ...zvC14Act) {
+		if level >= 2 {
 			core = append(core, len(full))
+		}
+		if level >= 1 {
+			wide = append(wide, len(full))
 		}
 		full = append(full, &zvC14Term{Name: name, From: from, Then: then})
 	}
-	coreConds := map[int]bool{0: true, 1: true, 5: true, 9: true, 12: true, 13: true, 16: true, 19: true, 21: true, 22: true, 24: true, 25: true, 27: true}
+	coreReject := map[int]bool{0: true, 5: true, 9: true, 13: true, 16: true, 21: true, 24: true, 27: true}
+	wideReject := map[int]bool{1: true, 4: true, 6: true, 10: true, 12: true, 19: true, 22: true, 25: true, 26: true}
+	coreAccept := map[int]bool{0: true, 16: true, 22: true}
+	lv := func(b bool, otherwise int) int {
+		if b {
+			return 2
+		}
+		return otherwise
+	}
 	for i, c := range conds {
-		add(coreConds[i], c.n+"->reject", []zvC14Cond{c.c}, reject)
-		add(coreConds[i] && i%2 == 0, c.n+"->accept", []zvC14Cond{c.c}, accept)
+		add(lv(coreReject[i], lv(wideReject[i], 0)/2), c.n+"->reject", []zvC14Cond{c.c}, reject)
+		add(lv(coreAccept[i], 0), c.n+"->accept", []zvC14Cond{c.c}, accept)
 	}
 	// unconditional terms with every action (list)
-	add(true, "accept", nil, accept)
-	add(true, "reject", nil, reject)
-	add(true, "lp200", nil, lp(200))
-	add(false, "lp300", nil, lp(300))
-	add(true, "lp200,accept", nil, lp(200), accept)
-	add(true, "med50", nil, med(50))
-	add(false, "med51", nil, med(51))
-	add(true, "prepend65100x2", nil, pre(65100, 2))
-	add(false, "prepend65100x3", nil, pre(65100, 3))
-	add(false, "prepend65101x2", nil, pre(65101, 2))
-	add(false, "prepend65100x0", nil, pre(65100, 0))
-	add(true, "nh4", nil, nh(0))
-	add(false, "nh6,accept", nil, nh(1), accept)
-	add(false, "nh6", nil, nh(1))
-	add(true, "lp300,med7,prepend65101x1,reject", nil, lp(300), med(7), pre(65101, 1), reject)
-	add(false, "noop", nil)
-	add(true, "accept,lp999", nil, accept, lp(999))
-	add(false, "reject,accept", nil, reject, accept)
-	add(false, "med50,lp200", nil, med(50), lp(200))
-	add(false, "lp200,med50", nil, lp(200), med(50))
+	add(2, "accept", nil, accept)
+	add(2, "reject", nil, reject)
+	add(2, "lp200", nil, lp(200))
+	add(0, "lp300", nil, lp(300))
+	add(2, "lp200,accept", nil, lp(200), accept)
+	add(1, "med50", nil, med(50))
+	add(0, "med51", nil, med(51))
+	add(2, "prepend65100x2", nil, pre(65100, 2))
+	add(0, "prepend65100x3", nil, pre(65100, 3))
+	add(0, "prepend65101x2", nil, pre(65101, 2))
+	add(1, "prepend65100x0", nil, pre(65100, 0))
+	add(2, "nh4", nil, nh(0))
+	add(1, "nh6,accept", nil, nh(1), accept)
+	add(0, "nh6", nil, nh(1))
+	add(2, "lp300,med7,prepend65101x1,reject", nil, lp(300), med(7), pre(65101, 1), reject)
+	add(1, "noop", nil)
+	add(1, "accept,lp999", nil, accept, lp(999))
+	add(1, "reject,accept", nil, reject, accept)
+	add(0, "med50,lp200", nil, med(50), lp(200))
+	add(1, "lp200,med50", nil, lp(200), med(50))
 	// conditional rewrites and several conditions per term (any-of)
-	add(true, "bgp->lp200", []zvC14Cond{conds[21].c}, lp(200))
-	add(false, "static->lp200", []zvC14Cond{conds[22].c}, lp(200))
-	add(true, "rf4/8orl->med50", []zvC14Cond{conds[0].c}, med(50))
-	add(true, "rf6/32orl->prepend65100x2", []zvC14Cond{conds[5].c}, pre(65100, 2))
-	add(false, "com1->nh4", []zvC14Cond{conds[16].c}, nh(0))
-	add(false, "lcom(1,1)->lp300,accept", []zvC14Cond{conds[19].c}, lp(300), accept)
-	add(true, "[rf4/24ex|rf6/48ex]->reject", []zvC14Cond{conds[1].c, conds[6].c}, reject)
-	add(true, "[com1|static]->lp200", []zvC14Cond{conds[16].c, conds[22].c}, lp(200))
-	add(false, "[rf4/8orl&bgp|rf6/32orl&com1]->accept", []zvC14Cond{conds[24].c, conds[25].c}, accept)
-	add(false, "[rf6/32orl&com1|rf4/8orl&bgp]->accept", []zvC14Cond{conds[25].c, conds[24].c}, accept)
-	add(false, "[static&com1|any]->med50", []zvC14Cond{conds[31].c, conds[27].c}, med(50))
-	add(false, "[rf4/8orl|rf4/8orl]->reject", []zvC14Cond{conds[0].c, conds[0].c}, reject)
-	return full, core
+	add(2, "bgp->lp200", []zvC14Cond{conds[21].c}, lp(200))
+	add(0, "static->lp200", []zvC14Cond{conds[22].c}, lp(200))
+	add(1, "rf4/8orl->med50", []zvC14Cond{conds[0].c}, med(50))
+	add(2, "rf6/32orl->prepend65100x2", []zvC14Cond{conds[5].c}, pre(65100, 2))
+	add(0, "com1->nh4", []zvC14Cond{conds[16].c}, nh(0))
+	add(1, "lcom(1,1)->lp300,accept", []zvC14Cond{conds[19].c}, lp(300), accept)
+	add(2, "[rf4/24ex|rf6/48ex]->reject", []zvC14Cond{conds[1].c, conds[6].c}, reject)
+	add(2, "[com1|static]->lp200", []zvC14Cond{conds[16].c, conds[22].c}, lp(200))
+	add(1, "[rf4/8orl&bgp|rf6/32orl&com1]->accept", []zvC14Cond{conds[24].c, conds[25].c}, accept)
+	add(1, "[rf6/32orl&com1|rf4/8orl&bgp]->accept", []zvC14Cond{conds[25].c, conds[24].c}, accept)
+	add(1, "[static&com1|any]->med50", []zvC14Cond{conds[31].c, conds[27].c}, med(50))
+	add(0, "[rf4/8orl|rf4/8orl]->reject", []zvC14Cond{conds[0].c, conds[0].c}, reject)
+	return full, core, wide
 }
 
 func zvC14ChainProbes() []zvC14Pfx {
@@ -972,7 +1044,7 @@ func zvC14ChainProbes() []zvC14Pfx {
 				add(zvC14Flip(p))              // sibling
 			}
 			if l < len(base) {
-				add(zvC14Pfx{fam, base[:l+1]})           // child on the base
+				add(zvC14Pfx{fam, base[:l+1]})            // child on the base
 				add(zvC14Flip(zvC14Pfx{fam, base[:l+1]})) // child off the base
 			}
 			add(zvC14Pfx{fam, oth[:l]}) // unrelated, same length
@@ -1049,11 +1121,11 @@ func TestVerifC14(t *testing.T) {
 	r := vh.Start(t, "C14")
 	defer r.Finish()
 	r.Rule("matcher layer: every pattern (2 base addresses truncated at every length 0..32 / 0..128) x 17 matchers (exact, orlonger, longer, 14 ranges) as route filter, and as plain prefix list, " +
-		"x 322 dense probes (every length + every sibling, both families incl. the other family); chain layer: every sequence of 1..3 terms of the catalogue (quick: 3-term sequences over the core catalogue; thorough: over the full one) " +
+		"x 322 dense probes (every length + every sibling, both families incl. the other family); chain layer: every sequence of 1..3 terms of the catalogue (quick: 3-term sequences over the core catalogue; thorough: over the wide one) " +
 		"x every split into 1..3 filters x chain probes (each pattern, parent, sibling, children, unrelated, host; IPv4+IPv6) x 5 paths; equal layer: every ordered pair of 1-term chains and of selected 2-term chains over the full catalogue, " +
 		"built from separate objects, x all chain-layer inputs when Equal says true; evaluations = (chain,input) evaluations + pairs compared")
 	r.Require(zvC14Required...)
-	full, core := zvC14Catalogue()
+	full, core, wide := zvC14Catalogue()
 	if r.IsReplay() {
 		var c zvC14Case
 		r.ReplayCase(&c)
@@ -1068,13 +1140,16 @@ func TestVerifC14(t *testing.T) {
 			}
 			zvC14Eval(r, c.Layer, c.Chain, zvC14Ambiguous(c.Chain), zvC14BuildChain(c.Chain), in[0], extra...)
 		}
+		zvC14Flush(r)
 		for _, k := range zvC14Required {
 			r.Count(k, 1)
 		}
 		return
 	}
+	defer zvC14Flush(r)
 	r.Extra("catalogue_terms", len(full))
 	r.Extra("core_terms", len(core))
+	r.Extra("wide_terms", len(wide))
 	idx := 0
 	capped := false
 	budget := func() bool {
@@ -1155,7 +1230,7 @@ func TestVerifC14(t *testing.T) {
 	}
 	third := core
 	if r.Thorough() {
-		third = all
+		third = wide
 	}
 	chains := 0
 	for _, a := range all {
@@ -1187,7 +1262,7 @@ func TestVerifC14(t *testing.T) {
 		r.Sample(zvC14Case{Layer: "chain", Chain: [][]*zvC14Term{{full[core[0]], full[core[5]]}, {full[core[9]]}}, Probe: inputs[7].q, Path: 1})
 	}
 
-	// ---- equal layer: ordered pairs of 1-term chains, and of 2-term chains [x, accept] / [lp200, x]
+	// ---- equal layer: ordered pairs of chains of three shapes: [x], [x] | [t0], [t2, x]
 	shapes := []func(i int) [][]*zvC14Term{
 		func(i int) [][]*zvC14Term { return [][]*zvC14Term{{full[i]}} },
 		func(i int) [][]*zvC14Term { return [][]*zvC14Term{{full[i]}, {full[0]}} },
